@@ -56,8 +56,8 @@ def same_element_family(l, r):
 def skip_cell(op, lv, rv):
     if op in ('/', '//', '%') and isinstance(rv, (int, float)) and not isinstance(lv, str) and rv == 0:
         return True
-    if op == '**' and isinstance(rv, (int, float)) and (rv < 0 or (isinstance(lv, (int, float)) and lv < 0)):
-        return True
+    if op == '**' and isinstance(rv, (int, float)) and isinstance(lv, (int, float)) and lv == 0 and rv < 0:
+        return True             # ZeroDivisionError
     if op == '<<' and isinstance(rv, int) and rv < 0 or op == '>>' and isinstance(rv, int) and rv < 0:
         return True
     if op == '%' and isinstance(lv, str):
@@ -125,7 +125,8 @@ def check_cell(ctx, op, fn, lsrc, rsrc, lk, rk):
         ctx.violation('C19|conformance-check-raised|%s|%s' % (type(e).__name__, cell), case, traceback.format_exc()[-400:])
         return
     if not ok:
-        ctx.violation('C19|result-does-not-conform|%s|inferred=%s|actual=%s' % (cell, type(ty).__name__, type(result).__name__), case,
+        hz = power_hazard('(%s) %s (%s)' % (lsrc, op, rsrc)) if op == '**' else None
+        ctx.violation('C19|result-does-not-conform|%s|inferred=%s|actual=%s%s' % (cell, type(ty).__name__, type(result).__name__, '|' + hz if hz else ''), case,
                       'CPython result %r (%s), TIFA infers %s' % (result, type(result).__name__, ty))
     if ctx.evaluations % 499 == 0:
         ctx.sample({'code': code, 'cpython': repr(result)[:60], 'tifa_type': str(ty), 'issues': sorted(k for k, v in t.issues.items() if v)})
@@ -160,6 +161,28 @@ def gen_tree(rng, depth):
     return '(%s %s %s)' % (gen_tree(rng, depth - 1), op, gen_tree(rng, depth - 1))
 
 
+def power_hazard(src):
+    """a ** whose result type depends on the operand VALUES: int ** negative int is a float, negative ** fraction is complex"""
+    import ast
+    try:
+        tree = ast.parse(src, mode='eval')
+    except SyntaxError:
+        return None
+    for n in ast.walk(tree):
+        if isinstance(n, ast.BinOp) and isinstance(n.op, ast.Pow):
+            try:
+                lv = eval(compile(ast.Expression(n.left), '<l>', 'eval'))
+                rv = eval(compile(ast.Expression(n.right), '<r>', 'eval'))
+            except Exception:
+                continue
+            if isinstance(lv, (int, float)) and isinstance(rv, (int, float)) and not isinstance(lv, bool) and not isinstance(rv, bool):
+                if rv < 0 and isinstance(lv, int) and isinstance(rv, int):
+                    return 'int-to-a-negative-int-power-is-a-float'
+                if lv < 0 and isinstance(rv, float) and rv != int(rv):
+                    return 'negative-base-to-a-fractional-power-is-complex'
+    return None
+
+
 def check_tree(ctx, src):
     from pedal.types.new_types import Type, is_subtype
     from pedal.types.normalize import get_pedal_type_from_value
@@ -191,7 +214,8 @@ def check_tree(ctx, src):
     inc = t.issues.get('incompatible_types') or []
     if cpy == 'TypeError':
         if not inc:
-            ctx.violation('C19|missed-incompatible-types|expression-tree', {'code': code}, 'CPython raises TypeError')
+            hz = power_hazard(src)
+            ctx.violation('C19|missed-incompatible-types|expression-tree' + ('|' + hz if hz else ''), {'code': code}, 'CPython raises TypeError')
         return
     if inc:
         ctx.count('tifa_stricter_than_cpython_(not judged by the statement)')
@@ -206,7 +230,8 @@ def check_tree(ctx, src):
         ctx.violation('C19|conformance-check-raised|%s|expression-tree' % type(e).__name__, {'code': code}, traceback.format_exc()[-300:])
         return
     if not ok:
-        ctx.violation('C19|result-does-not-conform|expression-tree|inferred=%s|actual=%s' % (type(ty).__name__, type(result).__name__), {'code': code},
+        hz = power_hazard(src)
+        ctx.violation('C19|result-does-not-conform|expression-tree|inferred=%s|actual=%s%s' % (type(ty).__name__, type(result).__name__, '|' + hz if hz else ''), {'code': code},
                       'CPython result %r, TIFA infers %s' % (result, ty))
 
 
